@@ -916,7 +916,9 @@ class Int(Spec):
         return rng.randint(self.lo, self.hi)
 
     def rejects(self, rng):
-        cand = [self.lo - 1, -1, self.hi + 1, 1 << max(self.hi.bit_length(), 1), 1 << 32, 1 << 64]
+        cand = [self.lo - 1, -1, self.hi + 1, 1 << max(self.hi.bit_length(), 1)]
+        if self.hi >= 0xFFFF:  # a wide field (ids, checksums): also the classic word sizes; small ranges are counts / exponents
+            cand += [1 << 32, 1 << 64]
         out = []
         for v in cand:
             if not (self.lo <= v <= self.hi) and v not in out:
